@@ -122,7 +122,8 @@ void orc_api_exit(const ApiRec &r, const Frame &f, const std::string &snap0, con
                     snprintf(sig, sizeof sig, "C01:illegal-call-had-effect:%s:%s", n.c_str(), st_name(r.st_before));
                     VIOL("C01", sig, "%s on module slot %d in state %s changed the observable state: %s -> %s", n.c_str(), r.slot, st_name(r.st_before), snap0.c_str(), snap1.c_str());
                 }
-            } else if (n != "pill" && !reentrant) {
+            } else if (n != "pill" && !reentrant && f.nested == 0) {
+                // (when callbacks ran inside the call they may have changed the outcome, e.g. deregistered the module: unconstrained)
                 if (r.rc != 0) {
                     char sig[96];
                     snprintf(sig, sizeof sig, "C01:legal-call-refused:%s:%s", n.c_str(), st_name(r.st_before));
